@@ -64,6 +64,7 @@ def gen_cases(ctx):
 
 def judge(ctx, case, res, mout):
     small = {k: case[k] for k in ('cfg', 'n', 'tail', 'table', 'fkind', 'kwargs', 'schedule', 'demand', 'label')}
+    pipelib.carry_flags(small, case)
     its = [t for t in case['table'] if t[0] == 'it']
     ctx.case((case['cfg']['skipNone'], case['table'], case['demand']),
              any(len(t[1]) >= 2 and 'n' in t[1] for t in its) and any(not t[1] for t in its), sample=small if case['n'] <= 4 else None)
@@ -359,9 +360,82 @@ def hosted_stream_cases(ctx):
                 ctx.fail('hosted-stream-differs', 'in-process stream hosted in %s: %d requests answered, the expansion spelled out answers %d' % (host, len(got), len(want)), case)
 
 
+_HELD = {}
+
+
+def _held_f(x):
+    sh = _HOST_SHAPES[x]
+    if sh[0] == 'plain':
+        return sh[1]
+    it = _host_inner(x, sh[1])
+    _HELD[x] = it            # somebody else keeps the iterator too (a cursor, an open reader): it is theirs, the stage only borrows it
+    return it
+
+
+def _held_body(shapes, skipNone, takes, way, use_library):
+    import gc
+    global _HOST_SHAPES
+    _HOST_SHAPES = shapes
+    del _HOST_LOG[:]
+    _HELD.clear()
+    if use_library:
+        from generatorpipeline import pipeline
+        stream = pipeline(0, skipNone=skipNone)(_held_f)(_HostSrc(len(shapes)))
+    else:
+        def ref():
+            for el in _HostSrc(len(shapes)):
+                r = _held_f(el)
+                for it in ((r,) if shapes[el][0] == 'plain' else r):
+                    if it is not None or not skipNone:
+                        yield it
+        stream = ref()
+    got = [next(stream) for _ in range(takes)]
+    if way == 'close':
+        stream.close()
+    elif way == 'throw':
+        try:
+            stream.throw(KeyError('stop'))
+        except KeyError:
+            pass
+    else:
+        del stream
+        gc.collect()
+    rest = {k: list(v) for k, v in sorted(_HELD.items())}
+    return dict(got=got, rest=rest, log=list(_HOST_LOG))
+
+
+def _held_run(shapes, skipNone, takes, way):
+    return dict(want=_held_body(shapes, skipNone, takes, way, False), got=_held_body(shapes, skipNone, takes, way, True))
+
+
+def held_iterator_cases(ctx):
+    """an iterator the function returns may be kept by somebody else as well: a stream that is stopped while inside it has taken the items it
+    was asked for and nothing else — the unread rest is still there for its owner (the stage neither drains nor closes what it borrowed)"""
+    rng = ctx.rng
+    for way in ('close', 'throw', 'drop'):
+        shapes = [('plain', 100), ('iter', [10, 11, None, 13, 14, 15]), ('plain', 102), ('iter', [30, 31])]
+        if rng.random() < 0.5:
+            shapes = shapes[1:]
+        skip = rng.choice([True, False])
+        first_iter = next(i for i, sh in enumerate(shapes) if sh[0] == 'iter')
+        takes = first_iter + rng.choice([1, 2])
+        case = dict(held_iterators=True, shapes=shapes, skipNone=skip, takes=takes, stopped_by=way)
+        ctx.case(('held', repr(shapes), skip, takes, way), True, sample=case)
+        ctx.count('held_iterators:' + way)
+        st, r = pipelib.isolated(_held_run, (shapes, skip, takes, way), timeout=60)
+        if st != 'ok':
+            ctx.fail('held-iterator-run-fails', 'in-process stream stopped (%s) inside an iterator that its maker still holds: %s %s' % (way, st, str(r)[-300:]), case)
+            continue
+        if r['got'] != r['want']:
+            ctx.fail('held-iterator-touched', 'stream stopped (%s) after %d items, inside an iterator its maker still holds: the maker then reads %r from it '
+                     '(stream got %r, log %s); with the expansion spelled out the maker reads %r (log %s)'
+                     % (way, takes, r['got']['rest'], r['got']['got'], r['got']['log'][-5:], r['want']['rest'], r['want']['log'][-5:]), case)
+
+
 def check(ctx):
     copied_stage_cases(ctx)
     hosted_stream_cases(ctx)
+    held_iterator_cases(ctx)
     for c, r, m in c01.execute(gen_cases(ctx)):
         with ctx.guard(c):
             judge(ctx, c, r, m)
@@ -372,6 +446,9 @@ def check(ctx):
 def replay(ctx, data):
     if 'copied_stage' in data['case']:
         copied_stage_cases(ctx)
+        return
+    if 'held_iterators' in data['case']:
+        held_iterator_cases(ctx)
         return
     if 'hosted_stream' in data['case']:
         hosted_stream_cases(ctx)
